@@ -79,3 +79,10 @@ Definition chk_VF2 (r : res (list Q * list Q)) (e : option (list xq * list xq)) 
   | Err _, Some (b1, b2) => any_bad b1 || any_bad b2
   | _, _ => false
   end.
+
+Definition chk_F2 (r : res (Q * Q)) (e : option (xq * xq)) : bool :=
+  match r, e with
+  | Ok (a, b), Some (x, y) => chk_F (Ok a) x && chk_F (Ok b) y
+  | Err _, None => true
+  | _, _ => false
+  end.
